@@ -12,7 +12,7 @@ G=$(mktemp -d)
 for t in layouts skeletons; do ./.build/vh_test -out "$G" $t >/dev/null 2>&1 || true; done
 for f in "$G"/*.v; do cmp -s "$f" coq/gen/$(basename "$f") || cp "$f" coq/gen/; done
 rm -rf "$G"
+./mkcoqproject.sh
 cd coq
-coq_makefile -f _CoqProject -o Makefile >/dev/null 2>&1
 timeout 3000 make -j16 2>&1 | grep -v '^Warning' | tail -5
 echo setup done
